@@ -28,7 +28,7 @@ class C20(Prop):
                   "remains: spec_ok is proved on the model in full. The install() failure path is exercised on the real "
                   "code (global recorder already set) on every run, not modelled beyond build+into_inner.")
     rule = ("1-3 emitter threads with 1-3 emissions each (cycling through the six Recorder methods), optionally one owner thread that "
-            "recovers or drops the handle, random schedule + round-robin tail; non-trivial = an owner step interleaved between an "
+            "recovers or drops the handle, random schedule + round-robin tail; in a quarter of the cases some threads run their whole program from a destructor during unwinding (the model ignores the context); non-trivial = an owner step interleaved between an "
             "emitter's upgrade and release, or an upgrade after the recovery/drop; distinct = distinct (programs, executed trace)")
     assumptions = ["SC memory model", "yield hooks placed before each Arc operation of recoverable.rs"]
     trusted_extra = ["harness/sched deterministic scheduler", "std Arc/Weak (exercised, modelled as a counter)"]
@@ -43,6 +43,10 @@ class C20(Prop):
                 progs.insert(rng.below(len(progs) + 1), owner)
             nt = len(progs)
             total = sum(2 + 4 * int(p[1:]) if p[0] == "E" else 3 for p in progs)
+            # calling context: a thread's whole program may run from a destructor during unwinding
+            # (prefix u); the model ignores the prefix, so the context must not change anything
+            if rng.chance(1, 4):
+                progs = [("u" + p) if rng.chance(1, 2) else p for p in progs]
             L = rng.range(0, total + 6)
             style = rng.below(3)
             sched = []
@@ -65,6 +69,7 @@ class C20(Prop):
 
     def coq_case(self, c):
         def prog(p):
+            p = p.lstrip("u")
             if p == "R":
                 return "PRecover"
             if p == "D":
@@ -105,8 +110,12 @@ class C20(Prop):
         for i in range(len(s)):
             out.append(dict(c, sched=s[:i] + s[i + 1:]))
         for i, p in enumerate(c["progs"]):
-            if p[0] == "E" and int(p[1:]) > 1:
-                q = list(c["progs"]); q[i] = "E%d" % (int(p[1:]) - 1)
+            if p[0] == "u":
+                q = list(c["progs"]); q[i] = p[1:]
+                out.append(dict(c, progs=q))
+            b = p.lstrip("u")
+            if b[0] == "E" and int(b[1:]) > 1:
+                q = list(c["progs"]); q[i] = p[:len(p) - len(b)] + "E%d" % (int(b[1:]) - 1)
                 out.append(dict(c, progs=q))
         return out
 
